@@ -233,7 +233,8 @@ def inline_helpers(prog: Any, f: FuncInfo, e: ast.AST, depth: int = 3) -> ast.AS
         body = [st for st in g.node.body if not (isinstance(st, ast.Expr) and (isinstance(st.value, ast.Constant) or _is_log_call(st.value)))]  # type: ignore[attr-defined]
         if len(body) == 1 and isinstance(body[0], ast.Return) and body[0].value is not None:
             return body[0].value
-        return None
+        # a chain of guard returns (`if a: return True ... return d`) read as one expression
+        return _chain_expr(body)
 
     class T(ast.NodeTransformer):
         def __init__(self, d: int) -> None:
